@@ -200,6 +200,31 @@ func genC15(r *rand.Rand, run int, _ string) *Scenario {
 		return sc
 	}
 
+	if run%12 == 5 {
+		// An InvalidateByLabels call over all labels (no fault) while other tasks write keys back and label them
+		// again; afterwards a fault-free sweep over all labels must remove every key that was labelled after the
+		// last Delete it received.
+		ix.Clients = [][]IndexOp{{{Kind: "invalidate", Labels: append([]string(nil), labels...)}}}
+		ix.Sweep = labels
+
+		nc := 1 + r.IntN(3)
+		for c := 0; c < nc; c++ {
+			var ops []IndexOp
+
+			for i := 0; i < 1+r.IntN(3); i++ {
+				k := r.IntN(nk)
+				ops = append(ops, IndexOp{Kind: "write", Cache: r.IntN(len(ix.Caches)), Key: k},
+					IndexOp{Kind: "addLabels", Name: pick(r, names...), Key: k, Labels: []string{pick(r, labels...)}})
+			}
+
+			ix.Clients = append(ix.Clients, ops)
+		}
+
+		sc.Sched = genSched(r, 80)
+
+		return sc
+	}
+
 	if run%12 == 11 {
 		// concurrent AddLabels while an InvalidateByLabels call hits a deleter failure; afterwards a
 		// fault-free sweep over all labels must remove every key that was ever labelled
